@@ -126,7 +126,9 @@ func TestMakeReplays(t *testing.T) {
 
 	// ---- third audit wave ------------------------------------------------------------------
 	write("C14", "c14matrix", "list-field-beside-aggregate", "select split(value, ',') as e1, count(1) .. group by key was accepted and failed on the first pair", &c14MatrixCase{E: lib.Call("split", lib.Value(), lib.Str(",")), Aggr: true})
-	jm := func(m string) *lib.Node { return lib.Field(lib.Call("json", lib.Str(`{"a": null, "o": {"x": "y"}}`)), m) }
+	jm := func(m string) *lib.Node {
+		return lib.Field(lib.Call("json", lib.Str(`{"a": null, "o": {"x": "y"}}`)), m)
+	}
 	write("C12", "c12", "remove-null-json-member", "remove json('{\"a\": null}')['a'] deleted the key <nil>", &c12Case{Stmt: &lib.Stmt{Kind: "remove", Keys: []*lib.Node{jm("a")}}, Pairs: []lib.Pair{{K: "<nil>", V: "precious"}, {K: "x", V: "1"}}, Polls: "N", Batch: 32})
 	write("C12", "c12", "put-object-json-member", "put ('a', '1'), ('k', json(..)['o']) wrote a = 1 and k = ''", &c12Case{Stmt: &lib.Stmt{Kind: "put", Pairs: [][2]*lib.Node{{lib.Str("a"), lib.Str("1")}, {lib.Str("k"), jm("o")}}}, Pairs: []lib.Pair{{K: "k", V: "old"}}, Polls: "BN", Batch: 32})
 	write("C14", "c14", "aggregate-through-group-by", "select count(1) as c, key .. group by c was accepted and failed with Cannot find function count", &c14Case{Raw: "select count(1) as c, key where key ^= 'a' group by c", Mutant: true, Fault: "aggregate-reached-through-group-by", Pairs: abc})
